@@ -5,6 +5,7 @@ CONSTANTS
   WrapSeq <- NoSeq
   RenSeq <- NoSeq
   DocSet = {}
+  IntFull = FALSE
   Family = "all"
   MaxFields = 0
   MaxDepth = 0
